@@ -464,7 +464,7 @@ type scripted struct {
 	scripts map[string][]Beh     // by message id
 	mu      sync.Mutex
 	pos     map[string]int
-	over    map[string]int // sends beyond the script
+	over    map[string]int      // sends beyond the script
 	other   func(id string) Beh // answer for messages without a script (other traffic, parts f)
 }
 
@@ -689,6 +689,7 @@ func runHistory(t *testing.T, sp Spec) Result {
 
 		// other traffic (part f): N messages through the same store and the same dispatcher
 		otherWant := 0
+		var otherDead []string // other traffic that ends in the DLQ
 		burst := func(tag string, wait bool) bool {
 			if sp.Burst == nil || !sp.Burst.at(tag) {
 				return true
@@ -696,6 +697,9 @@ func runHistory(t *testing.T, sp Spec) Result {
 			route, target := sp.Burst.routeTarget(sp)
 			for i := 0; i < sp.Burst.N; i++ {
 				id := fmt.Sprintf("x-%s-%05d", tag, i)
+				if sp.Burst.answer(id).Code == 404 {
+					otherDead = append(otherDead, id)
+				}
 				if err := under.Enqueue(queue.Envelope{ID: id, Route: route, Target: target, Payload: []byte("p"), Headers: map[string]string{"X-M": id}}); err != nil {
 					res.Infra = "enqueue other traffic: " + err.Error()
 					return false
@@ -841,7 +845,16 @@ func runHistory(t *testing.T, sp Spec) Result {
 			return
 		}
 		// final state as the listings show it (one listing per route; the id lookup finds a message that a
-		// listing of at most 1000 rows does not reach)
+		// listing of at most 1000 rows does not reach). The history is over: the dead letters of the other traffic
+		// are removed first so that the DLQ listing (at most 1000 rows, no usable cursor inside one virtual
+		// instant) shows the judged messages.
+		for i := 0; i < len(otherDead); i += 500 {
+			j := min(i+500, len(otherDead))
+			if _, err := under.DeleteDead(queue.DeadDeleteRequest{IDs: otherDead[i:j]}); err != nil {
+				res.Infra = "delete dead other traffic: " + err.Error()
+				return
+			}
+		}
 		listed := map[string]queue.Envelope{}
 		inDLQ := map[string]queue.Envelope{}
 		seenRoute := map[string]bool{}
